@@ -967,9 +967,19 @@ func (p *Peer) onRequest(r Req) {
 		}
 	}
 	p.actUpdate()
-	// C17: outstanding requests within the limit
-	if lim := p.reqLimit(); lim > 0 && len(p.reqIn) > lim {
-		p.violate("C17", "requests_out.limit", "%d outstanding block requests from the SUT, limit %d", len(p.reqIn), lim)
+	// C17: outstanding requests within the limit. Requests that the SUT may have written before
+	// its event loop handled our latest choke are void in its books (a peer without the fast
+	// extension drops them silently) and it asks again after the unchoke: not counted.
+	if lim := p.reqLimit(); lim > 0 {
+		n := 0
+		for _, q := range p.reqIn {
+			if !p.reqAmbig[q] {
+				n++
+			}
+		}
+		if n > lim {
+			p.violate("C17", "requests_out.limit", "%d outstanding block requests from the SUT, limit %d", n, lim)
+		}
 	}
 	if p.amChoking && !p.afSent[r.Index] {
 		// we are choking: fast peers reject, others ignore
